@@ -34,14 +34,22 @@ Inductive cres :=
 | RSet (v : N) | RTrySet (ok : bool) (v : N) | RGet (v : option N) | RCleared
 | RNone.
 
+(* by which route a child slot is reached: it determines from what the offset of a new element is computed *)
+Inductive route :=
+| RFirst      (* first_child_or_token: the parent's own offset *)
+| RLast       (* last_child_or_token: the parent's end minus the child's length *)
+| RIter       (* a child iterator: the parent's offset plus the lengths of the children passed *)
+| RNext       (* next_sibling_or_token: the end of the element the call starts from *)
+| RPrev.      (* prev_sibling_or_token: the start of that element minus the child's length *)
+
 (* micro-operations: what a thread still has to do for the current program operation; each is one
    blocking point *)
 Inductive mop :=
-| MRead (p : pos) (i : nat) (first : bool) (keep : bool)
+| MRead (p : pos) (i : nat) (rt : route) (first : bool) (keep : bool)
     (* read slot i of the node at p; [first]: a miss allocates a candidate and continues with MWrite,
        otherwise (re-read after try_write) the slot is filled; [keep]: the element found is the
        result of the operation (clone it into a new register) *)
-| MWrite (p : pos) (i : nat) (cand : option nat) (keep : bool)
+| MWrite (p : pos) (i : nat) (off : N) (cand : option nat) (keep : bool)    (* off: the offset computed for the candidate *)
 | MRmwInternal (delta : Z) (after : list cev)      (* compensation inside the loser path / teardown *)
 | MCloneResult (h : pos * selem)                   (* fetch_add(1), then the handle goes into a new register *)
 | MCloneReg (r : nat)
@@ -66,7 +74,8 @@ Record cstate := mkC {
   c_data  : list (pos * N);               (* node data *)
   c_torn  : bool;                         (* teardown has started *)
   c_payload_drops : nat;                  (* payload values dropped so far *)
-  c_threads : list thread
+  c_threads : list thread;
+  c_offs  : list (pos * N)                (* the text offset stored in each initialised slot's element *)
 }.
 
 Section Conc.
@@ -86,6 +95,21 @@ Section Conc.
   Fixpoint data_remove (d : list (pos * N)) (p : pos) : list (pos * N) :=
     match d with [] => [] | (q, v) :: r => if pos_eqb q p then data_remove r p else (q, v) :: data_remove r p end.
 
+  Fixpoint off_lookup (l : list (pos * N)) (p : pos) : option N :=
+    match l with [] => None | (q, o) :: r => if pos_eqb q p then Some o else off_lookup r p end.
+  (* the offset an element reports (the root starts at 0) *)
+  Definition off_of (l : list (pos * N)) (p : pos) : N :=
+    match p with [] => 0 | _ => match off_lookup l p with Some o => o | None => 0 end end.
+  (* the offset a thread computes for the element it is about to create at slot i of the node at p *)
+  Definition cand_off (l : list (pos * N)) (p : pos) (i : nat) (rt : route) : N :=
+    match rt with
+    | RFirst => off_of l p
+    | RLast => off_of l p + len_at g p - len_at g (i :: p)
+    | RIter => off_of l p + sumN (map glen (firstn i (kids g p)))
+    | RNext => off_of l (Nat.pred i :: p) + len_at g (Nat.pred i :: p)
+    | RPrev => off_of l (S i :: p) - len_at g (i :: p)
+    end.
+
   Fixpoint set_nth {A} (l : list A) (i : nat) (x : A) : list A :=
     match l, i with
     | [], _ => []
@@ -97,13 +121,13 @@ Section Conc.
     match nth_error (t_regs t) r with Some (Some h) => Some h | _ => None end.
 
   (* expand a program operation into micro-operations (or finish it at once) *)
-  Definition get_or_add (p : pos) (i : nat) (keep : bool) : list mop := [MRead p i true keep].
+  Definition get_or_add (p : pos) (i : nat) (rt : route) (keep : bool) : list mop := [MRead p i rt true keep].
 
   (* children_with_tokens().nth(i): children 0..i-1 are materialised and passed over, child i is kept *)
   Fixpoint iter_to (p : pos) (j : nat) (n : nat) : list mop :=
     match n with
-    | O => get_or_add p j true
-    | S m => get_or_add p j false ++ iter_to p (S j) m
+    | O => get_or_add p j RIter true
+    | S m => get_or_add p j RIter false ++ iter_to p (S j) m
     end.
 
   Definition expand (t : thread) (o : cop) : list mop * option cres :=
@@ -112,23 +136,23 @@ Section Conc.
     let nchildren (p : pos) := length (kids g p) in
     match o with
     | KFirst r => nav r (fun p e => match e with
-                                    | ENode _ => if Nat.ltb 0 (nchildren p) then (get_or_add p 0 true, None) else ([], Some (RHandle None))
+                                    | ENode _ => if Nat.ltb 0 (nchildren p) then (get_or_add p 0 RFirst true, None) else ([], Some (RHandle None))
                                     | EToken _ => ([], Some (RHandle None)) end)
     | KLast r => nav r (fun p e => match e with
-                                   | ENode _ => if Nat.ltb 0 (nchildren p) then (get_or_add p (nchildren p - 1) true, None) else ([], Some (RHandle None))
+                                   | ENode _ => if Nat.ltb 0 (nchildren p) then (get_or_add p (nchildren p - 1) RLast true, None) else ([], Some (RHandle None))
                                    | EToken _ => ([], Some (RHandle None)) end)
     | KChild r i => nav r (fun p e => match e with
                                       | ENode _ => if Nat.ltb i (nchildren p) then (iter_to p 0 i, None)
                                                    else (* the iterator runs off the end: every child is materialised *)
-                                                     (flat_map (fun j => get_or_add p j false) (seq 0 (nchildren p)), Some (RHandle None))
+                                                     (flat_map (fun j => get_or_add p j RIter false) (seq 0 (nchildren p)), Some (RHandle None))
                                       | EToken _ => ([], Some (RHandle None)) end)
     | KNext r => nav r (fun p _ => match p with
                                    | [] => ([], Some (RHandle None))
-                                   | i :: q => if Nat.ltb (S i) (nchildren q) then (get_or_add q (S i) true, None) else ([], Some (RHandle None))
+                                   | i :: q => if Nat.ltb (S i) (nchildren q) then (get_or_add q (S i) RNext true, None) else ([], Some (RHandle None))
                                    end)
     | KPrev r => nav r (fun p _ => match p with
                                    | [] => ([], Some (RHandle None))
-                                   | i :: q => match i with O => ([], Some (RHandle None)) | S j => (get_or_add q j true, None) end
+                                   | i :: q => match i with O => ([], Some (RHandle None)) | S j => (get_or_add q j RPrev true, None) end
                                    end)
     | KClone r => match reg_of t r with Some _ => ([MCloneReg r], None) | None => ([], Some (RHandle None)) end
     | KDrop r => match reg_of t r with Some _ => ([MDropReg r true], None) | None => ([], Some RNone) end
@@ -158,7 +182,7 @@ Section Conc.
 
   Definition upd_thread (s : cstate) (tid : nat) (t : thread) : cstate :=
     mkC (c_rc s) (c_slots s) (c_wlock s) (c_next s) (c_live s) (c_freed s) (c_data s) (c_torn s) (c_payload_drops s)
-        (set_nth (c_threads s) tid t).
+        (set_nth (c_threads s) tid t) (c_offs s).
 
   Definition wlocked (s : cstate) (p : pos) (i : nat) : bool :=
     existsb (fun x => pos_eqb (fst x) p && Nat.eqb (snd x) i) (c_wlock s).
@@ -169,7 +193,7 @@ Section Conc.
      read locks are never held across steps) *)
   Definition mop_runnable (s : cstate) (m : mop) : bool :=
     match m with
-    | MRead p i _ _ | MWrite p i _ _ | MTearSlot _ p i => negb (wlocked s p i)
+    | MRead p i _ _ _ | MWrite p i _ _ _ | MTearSlot _ p i => negb (wlocked s p i)
     | _ => true
     end.
 
@@ -180,7 +204,7 @@ Section Conc.
     let with_t (s' : cstate) (t' : thread) := upd_thread s' tid t' in
     let set_cont (t0 : thread) (c : list mop) := mkThread (t_regs t0) (t_prog t0) c (t_out t0) in
     match m with
-    | MRead p i first keep =>
+    | MRead p i rt first keep =>
         let b := block_of (c_slots s) p in
         match slot_lookup (c_slots s) (i :: p) with
         | Some e =>
@@ -190,43 +214,43 @@ Section Conc.
             (* miss: build the candidate (a node candidate allocates a NodeData block) *)
             if child_is_node p i then
               let c := c_next s in
-              let s' := mkC (c_rc s) (c_slots s) (c_wlock s) (S c) (c :: c_live s) (c_freed s) (c_data s) (c_torn s) (c_payload_drops s) (c_threads s) in
-              (with_t s' (set_cont t (MWrite p i (Some c) keep :: rest)), [CReadLock b i; CAccess b i; CReadUnlock b i; CAlloc c])
+              let s' := mkC (c_rc s) (c_slots s) (c_wlock s) (S c) (c :: c_live s) (c_freed s) (c_data s) (c_torn s) (c_payload_drops s) (c_threads s) (c_offs s) in
+              (with_t s' (set_cont t (MWrite p i (cand_off (c_offs s) p i rt) (Some c) keep :: rest)), [CReadLock b i; CAccess b i; CReadUnlock b i; CAlloc c])
             else
-              (with_t s (set_cont t (MWrite p i None keep :: rest)), [CReadLock b i; CAccess b i; CReadUnlock b i])
+              (with_t s (set_cont t (MWrite p i (cand_off (c_offs s) p i rt) None keep :: rest)), [CReadLock b i; CAccess b i; CReadUnlock b i])
         end
-    | MWrite p i cand keep =>
+    | MWrite p i off cand keep =>
         let b := block_of (c_slots s) p in
         match slot_lookup (c_slots s) (i :: p) with
         | None =>
             (* we are first: install *)
             let e := match cand with Some c => ENode c | None => EToken b end in
-            let s' := mkC (c_rc s) ((i :: p, e) :: c_slots s) (c_wlock s) (c_next s) (c_live s) (c_freed s) (c_data s) (c_torn s) (c_payload_drops s) (c_threads s) in
-            (with_t s' (set_cont t (MRead p i false keep :: rest)), [CWriteLock b i; CAccess b i; CWriteUnlock b i])
+            let s' := mkC (c_rc s) ((i :: p, e) :: c_slots s) (c_wlock s) (c_next s) (c_live s) (c_freed s) (c_data s) (c_torn s) (c_payload_drops s) (c_threads s) ((i :: p, off) :: c_offs s) in
+            (with_t s' (set_cont t (MRead p i RIter false keep :: rest)), [CWriteLock b i; CAccess b i; CWriteUnlock b i])
         | Some _ =>
             (* another thread was first: discard the candidate, keeping the write lock meanwhile *)
-            let s' := mkC (c_rc s) (c_slots s) ((p, i) :: c_wlock s) (c_next s) (c_live s) (c_freed s) (c_data s) (c_torn s) (c_payload_drops s) (c_threads s) in
+            let s' := mkC (c_rc s) (c_slots s) ((p, i) :: c_wlock s) (c_next s) (c_live s) (c_freed s) (c_data s) (c_torn s) (c_payload_drops s) (c_threads s) (c_offs s) in
             let loser := match cand with
                          | Some c => [MRmwInternal 2 []; MRmwInternal (-1) [CFree c]; MRmwInternal (-1) [CWriteUnlock b i]]
                          | None => [MRmwInternal 1 []; MRmwInternal (-1) [CWriteUnlock b i]]
                          end in
-            (with_t s' (set_cont t (loser ++ MRead p i false keep :: rest)), [CWriteLock b i; CAccess b i])
+            (with_t s' (set_cont t (loser ++ MRead p i RIter false keep :: rest)), [CWriteLock b i; CAccess b i])
         end
     | MRmwInternal d after =>
         (* apply the non-blocking events that follow: frees and the release of the write lock *)
         let live' := fold_left (fun l e => match e with CFree c => remove Nat.eq_dec c l | _ => l end) after (c_live s) in
         let freed' := fold_left (fun l e => match e with CFree c => c :: l | _ => l end) after (c_freed s) in
         let wl' := fold_left (fun l e => match e with CWriteUnlock _ _ => tl l | _ => l end) after (c_wlock s) in
-        let s' := mkC (c_rc s + d) (c_slots s) wl' (c_next s) live' freed' (c_data s) (c_torn s) (c_payload_drops s) (c_threads s) in
+        let s' := mkC (c_rc s + d) (c_slots s) wl' (c_next s) live' freed' (c_data s) (c_torn s) (c_payload_drops s) (c_threads s) (c_offs s) in
         (with_t s' (set_cont t rest), CRmw d :: after)
     | MCloneResult h =>
-        let s' := mkC (c_rc s + 1) (c_slots s) (c_wlock s) (c_next s) (c_live s) (c_freed s) (c_data s) (c_torn s) (c_payload_drops s) (c_threads s) in
+        let s' := mkC (c_rc s + 1) (c_slots s) (c_wlock s) (c_next s) (c_live s) (c_freed s) (c_data s) (c_torn s) (c_payload_drops s) (c_threads s) (c_offs s) in
         let t' := mkThread (t_regs t ++ [Some h]) (t_prog t) rest (t_out t ++ [RHandle (Some h)]) in
         (with_t s' t', [CRmw 1])
     | MCloneReg r =>
         match reg_of t r with
         | Some h =>
-            let s' := mkC (c_rc s + 1) (c_slots s) (c_wlock s) (c_next s) (c_live s) (c_freed s) (c_data s) (c_torn s) (c_payload_drops s) (c_threads s) in
+            let s' := mkC (c_rc s + 1) (c_slots s) (c_wlock s) (c_next s) (c_live s) (c_freed s) (c_data s) (c_torn s) (c_payload_drops s) (c_threads s) (c_offs s) in
             let t' := mkThread (t_regs t ++ [Some h]) (t_prog t) rest (t_out t ++ [RHandle (Some h)]) in
             (with_t s' t', [CRmw 1])
         | None => (with_t s (set_cont t rest), [])       (* never queued for an empty register *)
@@ -241,11 +265,11 @@ Section Conc.
               (* the last handle: tear the tree down from the root, then release the root *)
               (* (the data of the root is dropped with its block, at the end; only the count is observable) *)
               let dr := match data_lookup (c_data s) [] with Some _ => 1%nat | None => 0%nat end in
-              let s' := mkC (old - 1) (c_slots s) (c_wlock s) (c_next s) (c_live s) (c_freed s) (data_remove (c_data s) []) true (c_payload_drops s + dr) (c_threads s) in
+              let s' := mkC (old - 1) (c_slots s) (c_wlock s) (c_next s) (c_live s) (c_freed s) (data_remove (c_data s) []) true (c_payload_drops s + dr) (c_threads s) (c_offs s) in
               let tear := tear_node 0 [] ++ [MRmwInternal (-1) [CFree 0%nat]] in
               (with_t s' (mkThread (t_regs t') (t_prog t') (tear ++ rest) (t_out t')), [CRmw (-1)])
             else
-              let s' := mkC (old - 1) (c_slots s) (c_wlock s) (c_next s) (c_live s) (c_freed s) (c_data s) (c_torn s) (c_payload_drops s) (c_threads s) in
+              let s' := mkC (old - 1) (c_slots s) (c_wlock s) (c_next s) (c_live s) (c_freed s) (c_data s) (c_torn s) (c_payload_drops s) (c_threads s) (c_offs s) in
               (with_t s' t', [CRmw (-1)])
         end
     | MTearSlot b p i =>
@@ -256,7 +280,7 @@ Section Conc.
         let dr := match data_lookup (c_data s) (i :: p) with Some _ => 1%nat | None => 0%nat end in
         let wl := match more with [] => c_wlock s | _ => (p, i) :: c_wlock s end in
         let s' := mkC (c_rc s) (slot_remove (c_slots s) (i :: p)) wl (c_next s) (c_live s) (c_freed s)
-                      (data_remove (c_data s) (i :: p)) (c_torn s) (c_payload_drops s + dr) (c_threads s) in
+                      (data_remove (c_data s) (i :: p)) (c_torn s) (c_payload_drops s + dr) (c_threads s) (c_offs s) in
         (with_t s' (set_cont t (more ++ rest)), CWriteLock b i :: CAccess b i :: evs)
     | MData p o =>
         let b := block_of (c_slots s) p in
@@ -274,7 +298,7 @@ Section Conc.
           | KClear _ => (data_remove (c_data s) p, drops, RCleared, true)
           | _ => (c_data s, 0%nat, RNone, false)
           end in
-        let s' := mkC (c_rc s) (c_slots s) (c_wlock s) (c_next s) (c_live s) (c_freed s) d' (c_torn s) (c_payload_drops s + dr) (c_threads s) in
+        let s' := mkC (c_rc s) (c_slots s) (c_wlock s) (c_next s) (c_live s) (c_freed s) d' (c_torn s) (c_payload_drops s + dr) (c_threads s) (c_offs s) in
         (with_t s' (mkThread (t_regs t) (t_prog t) rest (t_out t ++ [res])), [CDataLock b w; CDataUnlock b w])
     end.
 
@@ -308,7 +332,7 @@ Section Conc.
 
   Definition normalize (s : cstate) : cstate :=
     mkC (c_rc s) (c_slots s) (c_wlock s) (c_next s) (c_live s) (c_freed s) (c_data s) (c_torn s) (c_payload_drops s)
-        (map (fun t => refill (S (length (t_prog t))) t) (c_threads s)).
+        (map (fun t => refill (S (length (t_prog t))) t) (c_threads s)) (c_offs s).
 
   Definition runnable (s : cstate) (tid : nat) : bool :=
     match nth_error (c_threads s) tid with
@@ -358,5 +382,5 @@ Section Conc.
 
   Definition cinit (progs : list (list cop)) : cstate :=
     normalize (mkC (Z.of_nat (length progs)) [] [] 1 [0%nat] [] [] false 0
-                   (map (fun p => mkThread [Some ([], ENode 0)] p [] []) progs)).
+                   (map (fun p => mkThread [Some ([], ENode 0)] p [] []) progs) []).
 End Conc.
